@@ -8,6 +8,7 @@ import (
 	"fmt"
 	"slices"
 	"sort"
+	"strconv"
 	"strings"
 
 	"github.com/cockroachdb/pebble/internal/base"
@@ -222,6 +223,11 @@ var groups = []group{
 		{"range-only", func(ve *manifest.VersionEdit, _ map[base.DiskFileNum]uint64) {
 			ve.NewTables = append(ve.NewTables, newTable(5, tRangeOnly(5)))
 		}},
+		{"range-only-ctime", func(ve *manifest.VersionEdit, _ map[base.DiskFileNum]uint64) {
+			m := tRangeOnly(5)
+			m.CreationTime = 1
+			ve.NewTables = append(ve.NewTables, newTable(5, m))
+		}},
 		{"point+range", func(ve *manifest.VersionEdit, _ map[base.DiskFileNum]uint64) {
 			ve.NewTables = append(ve.NewTables, newTable(3, tPointRange(6)))
 		}},
@@ -404,8 +410,14 @@ func buildEdit(ps []Pick) (*manifest.VersionEdit, map[base.DiskFileNum]uint64) {
 
 // ---- canonical form ----
 
-func canonKey(k base.InternalKey) string {
-	return fmt.Sprintf("%q/%d", k.UserKey, uint64(k.Trailer))
+type cbuf struct{ b []byte }
+
+func (c *cbuf) s(x string) *cbuf  { c.b = append(c.b, x...); return c }
+func (c *cbuf) u(x uint64) *cbuf  { c.b = strconv.AppendUint(c.b, x, 10); return c }
+func (c *cbuf) i(x int64) *cbuf   { c.b = strconv.AppendInt(c.b, x, 10); return c }
+func (c *cbuf) q(x []byte) *cbuf  { c.b = strconv.AppendQuote(c.b, string(x)); return c }
+func (c *cbuf) key(k base.InternalKey) *cbuf {
+	return c.q(k.UserKey).s("/").u(uint64(k.Trailer))
 }
 
 // canonTable renders every persisted attribute of a table. Deliberately normalised:
@@ -413,86 +425,106 @@ func canonKey(k base.InternalKey) string {
 //   - BackingValueSize of a blob reference is compared for virtual tables only: blob_metadata.go
 //     documents "For non-virtual sstables, this is the same as ValueSize", every consumer uses
 //     max(BackingValueSize, ValueSize), and Encode does not persist it for physical tables.
-func canonTable(m *manifest.TableMetadata, backingFileNum base.DiskFileNum) string {
-	var b strings.Builder
-	fmt.Fprintf(&b, "T%d size=%d ctime=%d seq=[%d,%d] abs=%d", uint64(m.TableNum), m.Size, m.CreationTime,
-		uint64(m.SeqNums.Low), uint64(m.SeqNums.High), uint64(m.LargestSeqNumAbsolute))
-	fmt.Fprintf(&b, " bounds=[%s,%s]", canonKey(m.Smallest()), canonKey(m.Largest()))
+func (c *cbuf) table(m *manifest.TableMetadata, backingFileNum base.DiskFileNum) {
+	c.s("T").u(uint64(m.TableNum)).s(" size=").u(m.Size).s(" ctime=").i(m.CreationTime).
+		s(" seq=[").u(uint64(m.SeqNums.Low)).s(",").u(uint64(m.SeqNums.High)).s("] abs=").u(uint64(m.LargestSeqNumAbsolute))
+	c.s(" bounds=[").key(m.Smallest()).s(",").key(m.Largest()).s("]")
 	if m.HasPointKeys {
-		fmt.Fprintf(&b, " points=[%s,%s]", canonKey(m.PointKeyBounds.Smallest()), canonKey(m.PointKeyBounds.Largest()))
+		c.s(" points=[").key(m.PointKeyBounds.Smallest()).s(",").key(m.PointKeyBounds.Largest()).s("]")
 	}
 	if m.HasRangeKeys {
 		if m.RangeKeyBounds == nil {
-			b.WriteString(" ranges=<nil bounds>")
+			c.s(" ranges=<nil bounds>")
 		} else {
-			fmt.Fprintf(&b, " ranges=[%s,%s]", canonKey(m.RangeKeyBounds.Smallest()), canonKey(m.RangeKeyBounds.Largest()))
+			c.s(" ranges=[").key(m.RangeKeyBounds.Smallest()).s(",").key(m.RangeKeyBounds.Largest()).s("]")
 		}
 	}
-	fmt.Fprintf(&b, " rkk=%d", uint8(m.RangeKeyKinds))
+	c.s(" rkk=").u(uint64(m.RangeKeyKinds))
 	if m.Virtual {
 		bn := backingFileNum
 		if m.TableBacking != nil {
 			bn = m.TableBacking.DiskFileNum
 		}
-		fmt.Fprintf(&b, " virtual(backing=%d)", uint64(bn))
+		c.s(" virtual(backing=").u(uint64(bn)).s(")")
 	} else if m.TableBacking != nil {
-		fmt.Fprintf(&b, " physical(backing=%d,size=%d)", uint64(m.TableBacking.DiskFileNum), m.TableBacking.Size)
+		c.s(" physical(backing=").u(uint64(m.TableBacking.DiskFileNum)).s(",size=").u(m.TableBacking.Size).s(")")
 	} else {
-		b.WriteString(" physical(no backing)")
+		c.s(" physical(no backing)")
 	}
-	fmt.Fprintf(&b, " prefix=%q suffix=%q", []byte(m.SyntheticPrefixAndSuffix.Prefix()), []byte(m.SyntheticPrefixAndSuffix.Suffix()))
-	fmt.Fprintf(&b, " depth=%d refs=[", int(m.BlobReferenceDepth))
+	c.s(" prefix=").q(m.SyntheticPrefixAndSuffix.Prefix()).s(" suffix=").q(m.SyntheticPrefixAndSuffix.Suffix())
+	c.s(" depth=").i(int64(m.BlobReferenceDepth)).s(" refs=[")
 	for _, r := range m.BlobReferences {
-		fmt.Fprintf(&b, "(%d:%d", uint64(r.FileID), r.ValueSize)
+		c.s("(").u(uint64(r.FileID)).s(":").u(r.ValueSize)
 		if m.Virtual {
-			fmt.Fprintf(&b, "/%d", r.BackingValueSize)
+			c.s("/").u(r.BackingValueSize)
 		}
-		b.WriteString(")")
+		c.s(")")
 	}
-	b.WriteString("]")
-	return b.String()
+	c.s("]")
+}
+
+func canonTable(m *manifest.TableMetadata, backingFileNum base.DiskFileNum) string {
+	var c cbuf
+	c.table(m, backingFileNum)
+	return string(c.b)
 }
 
 func canonEdit(ve *manifest.VersionEdit) string {
-	var b strings.Builder
-	fmt.Fprintf(&b, "comparer=%q log=%d prevlog=%d next=%d lastseq=%d\n", ve.ComparerName, uint64(ve.MinUnflushedLogNum),
-		ve.ObsoletePrevLogNum, ve.NextFileNum, uint64(ve.LastSeqNum))
-	var dels []string
-	for d := range ve.DeletedTables {
-		dels = append(dels, fmt.Sprintf("del L%d.%020d", d.Level, uint64(d.FileNum)))
-	}
-	sort.Strings(dels)
-	for _, s := range dels {
-		b.WriteString(s + "\n")
+	c := &cbuf{b: make([]byte, 0, 512)}
+	c.s("comparer=").q([]byte(ve.ComparerName)).s(" log=").u(uint64(ve.MinUnflushedLogNum)).s(" prevlog=").u(ve.ObsoletePrevLogNum).
+		s(" next=").u(ve.NextFileNum).s(" lastseq=").u(uint64(ve.LastSeqNum)).s("\n")
+	if len(ve.DeletedTables) > 0 {
+		dels := make([]manifest.DeletedTableEntry, 0, len(ve.DeletedTables))
+		for d := range ve.DeletedTables {
+			dels = append(dels, d)
+		}
+		sort.Slice(dels, func(i, j int) bool {
+			if dels[i].Level != dels[j].Level {
+				return dels[i].Level < dels[j].Level
+			}
+			return dels[i].FileNum < dels[j].FileNum
+		})
+		for _, d := range dels {
+			c.s("del L").i(int64(d.Level)).s(".").u(uint64(d.FileNum)).s("\n")
+		}
 	}
 	for _, nt := range ve.NewTables {
-		fmt.Fprintf(&b, "add L%d %s\n", nt.Level, canonTable(nt.Meta, nt.BackingFileNum))
+		c.s("add L").i(int64(nt.Level)).s(" ")
+		c.table(nt.Meta, nt.BackingFileNum)
+		c.s("\n")
 	}
 	for _, cb := range ve.CreatedBackingTables {
-		fmt.Fprintf(&b, "add-backing %d size=%d\n", uint64(cb.DiskFileNum), cb.Size)
+		c.s("add-backing ").u(uint64(cb.DiskFileNum)).s(" size=").u(cb.Size).s("\n")
 	}
 	for _, n := range ve.RemovedBackingTables {
-		fmt.Fprintf(&b, "del-backing %d\n", uint64(n))
+		c.s("del-backing ").u(uint64(n)).s("\n")
 	}
 	for _, bf := range ve.NewBlobFiles {
-		fmt.Fprintf(&b, "add-blob %d phys=%d size=%d vals=%d ctime=%d\n", uint64(bf.FileID), uint64(bf.Physical.FileNum),
-			bf.Physical.Size, bf.Physical.ValueSize, bf.Physical.CreationTime)
+		c.s("add-blob ").u(uint64(bf.FileID)).s(" phys=").u(uint64(bf.Physical.FileNum)).s(" size=").u(bf.Physical.Size).
+			s(" vals=").u(bf.Physical.ValueSize).s(" ctime=").u(bf.Physical.CreationTime).s("\n")
 	}
-	dels = dels[:0]
-	for d := range ve.DeletedBlobFiles {
-		dels = append(dels, fmt.Sprintf("del-blob %020d/%020d", uint64(d.FileID), uint64(d.FileNum)))
-	}
-	sort.Strings(dels)
-	for _, s := range dels {
-		b.WriteString(s + "\n")
+	if len(ve.DeletedBlobFiles) > 0 {
+		dels := make([]manifest.DeletedBlobFileEntry, 0, len(ve.DeletedBlobFiles))
+		for d := range ve.DeletedBlobFiles {
+			dels = append(dels, d)
+		}
+		sort.Slice(dels, func(i, j int) bool {
+			if dels[i].FileID != dels[j].FileID {
+				return dels[i].FileID < dels[j].FileID
+			}
+			return dels[i].FileNum < dels[j].FileNum
+		})
+		for _, d := range dels {
+			c.s("del-blob ").u(uint64(d.FileID)).s("/").u(uint64(d.FileNum)).s("\n")
+		}
 	}
 	for _, e := range ve.ExciseBoundsRecord {
-		fmt.Fprintf(&b, "excise %q %q kind=%d #%d\n", e.Bounds.Start, e.Bounds.End.Key, uint8(e.Bounds.End.Kind), uint64(e.SeqNum))
+		c.s("excise ").q(e.Bounds.Start).s(" ").q(e.Bounds.End.Key).s(" kind=").u(uint64(e.Bounds.End.Kind)).s(" #").u(uint64(e.SeqNum)).s("\n")
 	}
 	for _, e := range ve.TablesMarkedForCompaction {
-		fmt.Fprintf(&b, "mark L%d.%d\n", e.Level, uint64(e.TableNum))
+		c.s("mark L").i(int64(e.Level)).s(".").u(uint64(e.TableNum)).s("\n")
 	}
-	return b.String()
+	return string(c.b)
 }
 
 // resolveBackings does what Decode leaves to its caller: it gives every decoded virtual table a
@@ -536,6 +568,42 @@ func sameEncoding(ve *manifest.VersionEdit, a, b []byte) bool {
 	return bytes.Equal(x, y)
 }
 
+// Structural conditions of the findings this check reported on the unchanged tree. A failure on a case
+// that meets one of them gets that finding's own class, so that it can be tracked as a known finding
+// without hiding anything else.
+
+// bareNewFile5: a table for which Encode chooses tagNewFile5 (range keys) but writes no custom-field
+// section (no creation time, not virtual, no blob references, range key sets possible). Decode expects
+// the section - and its terminator - after every tagNewFile5 record.
+func bareNewFile5(ve *manifest.VersionEdit) bool {
+	for _, nt := range ve.NewTables {
+		m := nt.Meta
+		if m.HasRangeKeys && m.CreationTime == 0 && !m.Virtual && len(m.BlobReferences) == 0 && m.RangeKeyKinds != manifest.OnlyRangeKeyUnsetAndDelete {
+			return true
+		}
+	}
+	return false
+}
+
+const classBareNewFile5 = "newfile5-without-custom-fields"
+
+// lossyDecodedTable: attributes Decode accepts but Encode never writes back.
+func lossyDecodedTable(ve *manifest.VersionEdit) string {
+	for _, nt := range ve.NewTables {
+		m := nt.Meta
+		custom := m.CreationTime != 0 || m.Virtual || len(m.BlobReferences) > 0 || m.RangeKeyKinds == manifest.OnlyRangeKeyUnsetAndDelete
+		if !custom && (m.SyntheticPrefixAndSuffix.HasPrefix() || m.SyntheticPrefixAndSuffix.HasSuffix()) {
+			return "decode-accepts-synthetic-affix-encode-drops"
+		}
+	}
+	for _, nt := range ve.NewTables {
+		if len(nt.Meta.BlobReferences) == 0 && nt.Meta.BlobReferenceDepth != 0 {
+			return "decode-accepts-blob-depth-without-refs-encode-drops"
+		}
+	}
+	return ""
+}
+
 type failure struct {
 	class string
 	desc  string
@@ -563,6 +631,14 @@ func debugStrings(ve *manifest.VersionEdit) string {
 
 // roundTrip checks one valid edit; it returns the encoding and nil, or the failure.
 func roundTrip(ve *manifest.VersionEdit, prior map[base.DiskFileNum]uint64, verbose bool) (enc []byte, fl *failure) {
+	enc, fl = roundTrip1(ve, prior, verbose)
+	if fl != nil && fl.class != "panic" && bareNewFile5(ve) {
+		fl.class = classBareNewFile5
+	}
+	return enc, fl
+}
+
+func roundTrip1(ve *manifest.VersionEdit, prior map[base.DiskFileNum]uint64, verbose bool) (enc []byte, fl *failure) {
 	var err error
 	if fl = catch("Encode", func() { enc, err = encode(ve) }); fl != nil {
 		return nil, fl
